@@ -717,14 +717,27 @@ def check_decode(case):
         if pc.type == vz.ParameterType.DOUBLE:
           b0, b1 = (float(x) for x in pc.bounds)
           rec = dict(r[j]['c'])
-          if rec['mode'] not in ('in', 'lo', 'hi'):
-            rec['mode'] = 'in'  # unmap takes points of the embedded space
-          v = _cont_value(rec, b0, b1, np.dtype('float32'))
-          params[name] = float(v)
-          meta[name].append(('cont', float(v), True, 'lo'))
+          if rec['mode'].startswith('extreme'):
+            rec['mode'] = 'above' if rec['mode'].endswith('+') else 'below'
+          # an optimiser working in the embedded space may step outside it:
+          # unmap clips (the converter behind it is built with clipping)
+          v = float(_cont_value(rec, b0, b1, np.dtype('float32')))
+          params[name] = v
+          inr = b0 <= v <= b1
+          offbeat = offbeat or not inr
+          meta[name].append(('cont', v, inr, 'hi' if v > b1 else 'lo'))
         else:
           fv = list(pc.feasible_values)
-          params[name] = fv[r[j]['i'] % len(fv)]
+          k = r[j]['i'] % len(fv)
+          if r[j]['oov'] and len(fv) > 1 and all(
+              isinstance(x, (int, float)) for x in fv):
+            # between two embedded feasible values: snapped to a feasible one
+            k = min(k, len(fv) - 2)
+            params[name] = fv[k] + 0.3 * (fv[k + 1] - fv[k])
+            offbeat = True
+            out.cls('scaler_between_feasible_values')
+          else:
+            params[name] = fv[k]
           meta[name].append(('feasible', params[name], True))
       trials.append(vz.Trial(parameters=params))
     arg = trials
